@@ -33,7 +33,7 @@ CLAIMED = {
         "(all definitions, analysed through an instantiation present in the build) is provably within X's index range on every path "
         "from range guards with error()/throw exits, loop shapes and grow()/resize() post-conditions; at() guards entail non-emptiness "
         "and min<=i<=max; xapyb/sapyb/axpby compare every operand's range with *this before touching elements. The history part of C11 "
-        "(values surviving resize/grow, aliasing, iteration order) is a constructor of IndexRange<N> records `regular` only for a range it sizes and fills itself (F83, fixed). NOT decided, except: Array<1>::resize zero-fills exactly the "
+        "(values surviving resize/grow, aliasing, iteration order) is a constructor of IndexRange<N> records `regular` only for a range it sizes and fills itself (F83, fixed). a move constructor swaps, delegates, or takes every member it sets from the same member of its source. NOT decided, except: Array<1>::resize zero-fills exactly the "
         "complement of the recorded old range, and every bulk copy into this->begin() of VectorWithOffset fits the storage (range just "
         "established by resize(), or range reset to the start of the allocation + capacity test/reserve for the source's size + length "
         "taken from the source, on every path); every element-wise loop over several operands advances all its "
@@ -157,7 +157,7 @@ CLAIMED = {
         "division in the forward ring-pair map is exact: segments with one ring difference and odd (ring difference - offset) must be "
         "rejected - today they are accepted with a warning: KNOWN FINDING F22 (ring pairs not partitioned for max_delta-truncated last "
         "segments; replayed; not repaired, see DESIGN.md); the detector-pair table is read only for pairs of different detector numbers (F71, fixed). "
-        "NOT decided: that the interleaving formula and its hand inversion are mutual inverses, that the Michelogram formulas partition "
+        "the window of unmashed TOF indices that get_all_det_pos_pairs_for_bin lists for TOF bin k is, symbolically, the pre-image of k under the round(u/m) of get_bin_for_det_pos_pair. NOT decided: that the interleaving formula and its hand inversion are mutual inverses, that the Michelogram formulas partition "
         "ring pairs, reported counts (modular arithmetic over runtime scanner parameters).",
         technique="static analysis: branch-structure duality check, must-pass-through with success-conditional callee summaries, "
         "setter invalidation, ownership rule for shared_ptr table elements",
